@@ -176,12 +176,13 @@ PROPS["C14"] = {
     "assumptions": [],
 }
 PROPS["C17"] = {
-    "level_text": "Theorems over the REGENERATED call-site table: only read-only plumbing (rev-parse, config --list/--get, for-each-ref, rev-list, cat-file) is ever run, no other process is spawned, the only file-creating call is the hidden --cpuprofile; census totals are permutation-invariant. Exploration on the real binary: three runs per repository (GOMAXPROCS 1/16/4, --progress and --no-progress; table, JSON v1, JSON v2) with byte-identical stdout; SHA-1 of the entire repository directory (objects, refs, config, work tree, modes) identical before and after; thorough tier uses a -race build and fails on any race report.",
-    "level_note": "Partial: data-race freedom and schedule-independence of the real goroutines cannot be expressed in the model; they are sampled (race detector in the thorough tier).",
+    "level_text": "Theorems over the REGENERATED call-site table: only read-only plumbing (rev-parse, config --list/--get, for-each-ref, rev-list, cat-file) is ever run, no other process is spawned, the only file-creating call is the hidden --cpuprofile; census totals are permutation-invariant. Exploration on the real binary: three runs per repository (GOMAXPROCS 1/16/4, --progress and --no-progress; table, JSON v1, JSON v2) with byte-identical stdout; SHA-1 of the entire repository directory (objects, refs, config, work tree, modes) identical before and after; a second pass of the same engine runs a -race build of the binary (both tiers) and fails on any race report.",
+    "level_note": "Partial: data-race freedom and schedule-independence of the real goroutines cannot be expressed in the model; they are sampled (race detector on generated repositories, incl. scans that reach no tree or no commit at all).",
     "technique": "Lean 4 proof over regenerated tables (decide) + repeated-run exploration with directory hashing",
     "modules": ["GitSizer.Props.C17"],
-    "engines": [{"name": "rw", "quick": 160, "thorough": 8000, "per_shard": 10}],
-    "rule": "generated real repositories with a work tree x selections x output formats; non-trivial = every case.",
+    "engines": [{"name": "rw", "quick": 160, "thorough": 8000, "per_shard": 10},
+                {"name": "rw", "quick": 96, "thorough": 4800, "per_shard": 6, "env": {"VERIF_RACE": "1"}}],
+    "rule": "generated real repositories with a work tree x selections x output formats; non-trivial = every case. A second pass runs the same generator against a -race build of the binary (any race report is a violation).",
     "assumptions": ["git's read-only plumbing does not write to the repository"],
 }
 
